@@ -407,6 +407,49 @@ Definition read_map_begin (d : decoder) : res (N * N * Z * decoder) :=
   | Fault f => Fault f
   end.
 
+(** The three loops of the skip function, abstracted over the recursive call [sk]. *)
+Fixpoint skip_elems (sk : decoder -> res decoder) (n : nat) (d : decoder) : res decoder :=
+  match n with
+  | O => Ok d
+  | S n' => match sk d with
+            | Ok d1 => skip_elems sk n' d1
+            | Err c => Err c
+            | Fault f => Fault f
+            end
+  end.
+
+Fixpoint skip_pairs (skk skv : decoder -> res decoder) (n : nat) (d : decoder) : res decoder :=
+  match n with
+  | O => Ok d
+  | S n' => match skk d with
+            | Ok d1 => match skv d1 with
+                       | Ok d2 => skip_pairs skk skv n' d2
+                       | Err c => Err c
+                       | Fault f => Fault f
+                       end
+            | Err c => Err c
+            | Fault f => Fault f
+            end
+  end.
+
+(** `while (thrift_read_field_begin(...)) skip(field_type)`: every iteration consumes at least the
+    header byte, so [k] = bytes remaining + 1 iterations are always enough (ThriftProofs) *)
+Fixpoint skip_fields (sk : N -> decoder -> res decoder) (k : nat) (d : decoder) : res decoder :=
+  match k with
+  | O => Fault OutOfFuel
+  | S k' => match read_field_begin d with
+            | Ok (None, d1) => Ok d1
+            | Ok (Some (ft, _), d1) =>
+              match sk ft d1 with
+              | Ok d2 => skip_fields sk k' d2
+              | Err c => Err c
+              | Fault f => Fault f
+              end
+            | Err c => Err c
+            | Fault f => Fault f
+            end
+  end.
+
 (** skip_value(dec, type, depth, is_element) - the repaired thrift_skip (commits 970c3cc, e3562e1).
     [fuel] is the number of C stack frames the model is prepared to open. *)
 Fixpoint skip_value (fuel : nat) (ty : N) (depth : N) (is_element : bool) (d : decoder) {struct fuel} : res decoder :=
@@ -415,44 +458,6 @@ Fixpoint skip_value (fuel : nat) (ty : N) (depth : N) (is_element : bool) (d : d
   match fuel with
   | O => Fault DepthExceeded
   | S fuel' =>
-    let elems := fix elems (n : nat) (et : N) (d : decoder) {struct n} : res decoder :=
-      match n with
-      | O => Ok d
-      | S n' => match skip_value fuel' et (depth + 1) true d with
-                | Ok d1 => elems n' et d1
-                | Err c => Err c
-                | Fault f => Fault f
-                end
-      end in
-    let pairs := fix pairs (n : nat) (kt vt : N) (d : decoder) {struct n} : res decoder :=
-      match n with
-      | O => Ok d
-      | S n' => match skip_value fuel' kt (depth + 1) true d with
-                | Ok d1 => match skip_value fuel' vt (depth + 1) true d1 with
-                           | Ok d2 => pairs n' kt vt d2
-                           | Err c => Err c
-                           | Fault f => Fault f
-                           end
-                | Err c => Err c
-                | Fault f => Fault f
-                end
-      end in
-    (* `while (thrift_read_field_begin(...))`: every iteration consumes at least the header byte *)
-    let fields := fix fields (k : nat) (d : decoder) {struct k} : res decoder :=
-      match k with
-      | O => Fault OutOfFuel
-      | S k' => match read_field_begin d with
-                | Ok (None, d1) => Ok d1
-                | Ok (Some (ft, _), d1) =>
-                  match skip_value fuel' ft (depth + 1) false d1 with
-                  | Ok d2 => fields k' d2
-                  | Err c => Err c
-                  | Fault f => Fault f
-                  end
-                | Err c => Err c
-                | Fault f => Fault f
-                end
-      end in
     match ty with
     | 0 => Err ST_DECODE                                   (* "Cannot skip STOP type" *)
     | 1 | 2 =>
@@ -465,19 +470,20 @@ Fixpoint skip_value (fuel : nat) (ty : N) (depth : N) (is_element : bool) (d : d
     | 8 => match read_binary d with Ok (_, d1) => Ok d1 | Err c => Err c | Fault f => Fault f end
     | 9 | 10 =>
       match read_list_begin d with
-      | Ok (et, count, d1) => elems (Z.to_nat count) et d1
+      | Ok (et, count, d1) => skip_elems (skip_value fuel' et (depth + 1) true) (Z.to_nat count) d1
       | Err c => Err c
       | Fault f => Fault f
       end
     | 11 =>
       match read_map_begin d with
-      | Ok (kt, vt, count, d1) => pairs (Z.to_nat count) kt vt d1
+      | Ok (kt, vt, count, d1) =>
+          skip_pairs (skip_value fuel' kt (depth + 1) true) (skip_value fuel' vt (depth + 1) true) (Z.to_nat count) d1
       | Err c => Err c
       | Fault f => Fault f
       end
     | 12 =>
       match read_struct_begin d with
-      | Ok d1 => match fields (S (length (d_rest d1))) d1 with
+      | Ok d1 => match skip_fields (fun ft => skip_value fuel' ft (depth + 1) false) (S (length (d_rest d1))) d1 with
                  | Ok d2 => Ok (read_struct_end d2)
                  | Err c => Err c
                  | Fault f => Fault f
@@ -502,19 +508,10 @@ Fixpoint skip_unbounded (stack_frames : nat) (ty : N) (d : decoder) {struct stac
   match stack_frames with
   | O => Fault DepthExceeded
   | S fuel' =>
-    let elems := fix elems (n : nat) (et : N) (d : decoder) {struct n} : res decoder :=
-      match n with
-      | O => Ok d
-      | S n' => match skip_unbounded fuel' et d with
-                | Ok d1 => elems n' et d1
-                | Err c => Err c
-                | Fault f => Fault f
-                end
-      end in
     match ty with
     | 9 | 10 =>
       match read_list_begin d with
-      | Ok (et, count, d1) => elems (Z.to_nat count) et d1
+      | Ok (et, count, d1) => skip_elems (skip_unbounded fuel' et) (Z.to_nat count) d1
       | Err c => Err c
       | Fault f => Fault f
       end
